@@ -2,9 +2,12 @@ package c19
 
 import (
 	"bufio"
+	"bytes"
 	"fmt"
 	"net"
+	"regexp"
 	"strings"
+	"sync"
 	"sync/atomic"
 	"testing"
 	"time"
@@ -12,6 +15,8 @@ import (
 	"github.com/inbucket/inbucket/v3/pkg/config"
 	"github.com/inbucket/inbucket/v3/pkg/storage"
 	"github.com/inbucket/inbucket/v3/pkg/verifhook"
+	"github.com/rs/zerolog"
+	"github.com/rs/zerolog/log"
 	"pgregory.net/rapid"
 	"verif/harness/hx"
 )
@@ -49,7 +54,7 @@ var prop = hx.Prop[Case]{
 		n := rapid.IntRange(0, 6).Draw(t, "nsess")
 		held := false
 		for i := 0; i < n; i++ {
-			s := Sess{Proto: rapid.SampledFrom([]string{"smtp", "smtp", "pop3"}).Draw(t, "proto")}
+			s := Sess{Proto: rapid.SampledFrom([]string{"smtp", "smtp", "pop3", "pop3"}).Draw(t, "proto")}
 			if s.Proto == "smtp" {
 				s.State = rapid.SampledFrom([]string{"connected", "greeted", "mail", "rcpt", "data", "data", "held", "held"}).Draw(t, "state")
 				if s.State == "held" {
@@ -59,7 +64,13 @@ var prop = hx.Prop[Case]{
 					held = true
 				}
 			} else {
-				s.State = rapid.SampledFrom([]string{"auth", "marked", "marked"}).Draw(t, "pstate")
+				s.State = rapid.SampledFrom([]string{"auth", "marked", "marked", "pheld", "pheld"}).Draw(t, "pstate")
+				if s.State == "pheld" {
+					if held {
+						s.State = "marked"
+					}
+					held = true
+				}
 			}
 			c.Sessions = append(c.Sessions, s)
 		}
@@ -77,6 +88,73 @@ var prop = hx.Prop[Case]{
 	Run: run,
 }
 
+// logGate is the process-wide log sink for this check. Normally it discards; once armed it
+// blocks the first line written by the POP3 module (the goroutine writing it is a freshly
+// accepted session: its code logs before doing anything else) until released. That pauses an
+// accepted session without any hook in the accept path.
+type logGate struct {
+	armed   atomic.Bool
+	blocked chan struct{}
+	release chan struct{}
+	mu      sync.Mutex
+	known   map[string]bool // client addresses of this case's sessions that are not to be held
+	seen    []string        // diagnostics: pop3 lines seen while armed
+}
+
+var remoteRE = regexp.MustCompile(`"remote":"([^"]+)"`)
+
+func (g *logGate) know(addr string) {
+	g.mu.Lock()
+	if g.known == nil {
+		g.known = map[string]bool{}
+	}
+	g.known[addr] = true
+	g.mu.Unlock()
+}
+
+func (g *logGate) Write(p []byte) (int, error) {
+	if g.armed.Load() && bytes.Contains(p, []byte(`"module":"pop3"`)) && !bytes.Contains(p, []byte(`"phase"`)) {
+		m := remoteRE.FindSubmatch(p)
+		g.mu.Lock()
+		stranger := m != nil && !g.known[string(m[1])]
+		g.seen = append(g.seen, fmt.Sprintf("stranger=%v %s", stranger, bytes.TrimSpace(p)))
+		g.mu.Unlock()
+		// only a session the harness has not registered yet (the one being dialled now) is held;
+		// late lines of sessions from earlier cases pass
+		if stranger && g.armed.CompareAndSwap(true, false) {
+			g.mu.Lock()
+			b, r := g.blocked, g.release
+			g.mu.Unlock()
+			b <- struct{}{}
+			<-r
+		}
+	}
+	return len(p), nil
+}
+
+var gate = &logGate{}
+
+// The process-wide logger is replaced once, before any server goroutine exists (assigning it
+// per case would race with goroutines of earlier cases that still read it).
+func init() {
+	log.Logger = zerolog.New(gate)
+	zerolog.SetGlobalLevel(zerolog.DebugLevel)
+}
+
+// reset installs fresh channels for one case.
+func (g *logGate) reset() (blocked chan struct{}, release chan struct{}) {
+	g.mu.Lock()
+	defer g.mu.Unlock()
+	g.armed.Store(false)
+	// Only this case's own connections are exempt. Sessions of earlier cases have all ended
+	// (every case drains both servers before it returns), and ephemeral client ports recur from
+	// case to case, so remembering older addresses would exempt the very session to be held.
+	g.known = map[string]bool{}
+	g.seen = nil
+	g.blocked, g.release = make(chan struct{}, 1), make(chan struct{})
+	return g.blocked, g.release
+}
+
 type client struct {
 	conn net.Conn
 	br   *bufio.Reader
@@ -86,6 +164,9 @@ func dial(addr string) (*client, error) {
 	c, err := net.DialTimeout("tcp", addr, 2*time.Second)
 	if err != nil {
 		return nil, err
+	}
+	if !gate.armed.Load() {
+		gate.know(c.LocalAddr().String())
 	}
 	return &client{conn: c, br: bufio.NewReader(c)}, nil
 }
@@ -133,6 +214,7 @@ func run(c Case) *hx.Outcome {
 	}
 	defer w.Close()
 	// the accepted-session yield point: only the designated session is held
+	gateBlocked, gateRelease := gate.reset()
 	holdNext := atomic.Bool{}
 	heldCh := make(chan struct{}, 1)
 	releaseCh := make(chan struct{})
@@ -164,6 +246,7 @@ func run(c Case) *hx.Outcome {
 		if !released {
 			released = true
 			close(releaseCh)
+			close(gateRelease)
 		}
 	}
 	defer release()
@@ -182,12 +265,28 @@ func run(c Case) *hx.Outcome {
 					return o
 				}
 			}
+			if s.State == "pheld" {
+				gate.armed.Store(true)
+			}
 			cl, err := dial(pop3Addr)
 			if err != nil {
 				fail("harness", "dial pop3: %v", err)
 				return o
 			}
 			clients[i], open[i] = cl, true
+			if s.State == "pheld" {
+				heldIdx = i
+				select {
+				case <-gateBlocked:
+				case <-time.After(5 * time.Second):
+					gate.mu.Lock()
+					fail("harness", "the accepted POP3 session never wrote a log line; client %s; lines seen while armed: %q", cl.conn.LocalAddr(), gate.seen)
+					gate.mu.Unlock()
+					return o
+				}
+				gate.know(cl.conn.LocalAddr().String())
+				continue
+			}
 			if l, err := cl.line(hx.ReplyTimeout); err != nil || !strings.HasPrefix(l, "+OK") {
 				fail("harness", "pop3 greeting: %q %v", l, err)
 				return o
@@ -253,6 +352,18 @@ func run(c Case) *hx.Outcome {
 		s, cl := c.Sessions[i], clients[i]
 		box := fmt.Sprintf("sess%d", i)
 		defer func() { _ = cl.conn.Close(); open[i] = false }()
+		if s.Proto == "pop3" && s.State == "pheld" {
+			if l, err := cl.line(hx.ReplyTimeout); err != nil || !strings.HasPrefix(l, "+OK") {
+				fail("session-cut", "held POP3 session %d: greeting %q (err %v)", i, l, err)
+				return
+			}
+			for _, cmd := range []string{"USER " + box, "PASS x", "DELE 1"} {
+				if l, err := cl.cmd(cmd); err != nil || !strings.HasPrefix(l, "+OK") {
+					fail("session-cut", "held POP3 session %d: %s answered %q (err %v)", i, cmd, l, err)
+					return
+				}
+			}
+		}
 		if s.Proto == "pop3" {
 			if l, err := cl.cmd("QUIT"); err != nil || !strings.HasPrefix(l, "+OK") {
 				fail("session-cut", "POP3 session %d: QUIT answered %q (err %v)", i, l, err)
@@ -261,7 +372,7 @@ func run(c Case) *hx.Outcome {
 			time.Sleep(20 * time.Millisecond)
 			ms, _ := w.Store.GetMessages(box)
 			want := 2
-			if s.State == "marked" {
+			if s.State == "marked" || s.State == "pheld" {
 				want = 1
 			}
 			for try := 0; try < 200 && len(ms) != want; try++ {
@@ -425,7 +536,7 @@ func run(c Case) *hx.Outcome {
 	within(o, "drain-blocked", "pop3 Drain returning after the last session ended", hx.ReplyTimeout, pop3DrainCh)
 	o.NonTrivial = midTxn
 	if heldIdx >= 0 {
-		o.Class("a session held at the accepted point")
+		o.Class("a session held at the accepted point (" + c.Sessions[heldIdx].Proto + ")")
 	}
 	if midTxn {
 		o.Class("mid-transaction at cancel")
